@@ -223,9 +223,14 @@ pub fn sqrt_ratio(r: &BigRational) -> Val {
     if let Some(s) = exact_sqrt(r) {
         return Val::Fin(s);
     }
-    let f = ratio_to_f64(r).sqrt();
+    // values far outside f64's range (an exact scalar never underflows) are scaled by an even
+    // power of two first, so that the root is taken in f64's comfortable range
+    let lg = r.numer().bits() as i64 - r.denom().bits() as i64;
+    let k: i64 = if lg.abs() > 600 { lg / 2 } else { 0 };
+    let scaled = if k == 0 { r.clone() } else { r * pow2(-2 * k) };
+    let f = ratio_to_f64(&scaled).sqrt();
     match ratio_from_f64(f) {
-        Some(x) => Val::Fin(x),
+        Some(x) => Val::Fin(if k == 0 { x } else { x * pow2(k) }),
         None => {
             if f.is_nan() {
                 Val::Nan
